@@ -20,6 +20,9 @@ fn pool() -> Vec<Vec<Step>> {
         vec![link("m"), act(&["@upd{k:1,v:1}", "@rem(1)", "@clr"])],
         vec![act(&["@setv(3)", "@setv(4)"]), sync("v")],
         vec![sync("v"), sync("w"), cmd("w", "9"), unlink("v")],
+        // the agent's handler fails: every lane fails, every open link must be closed
+        vec![link("v"), sync("m"), act(&["@setv(5)", "@fail"])],
+        vec![link("s"), act(&["@push(1)", "@fail", "@push(2)"])],
     ]
 }
 
